@@ -103,3 +103,19 @@ check("C08", "exploration",
       "transport released and later calls raise connection-closed without touching a socket, close() returns within "
       "its timeout.", TRUST, "deterministic simulation: seeded call/event histories in virtual time with silent/slow/chatty/trickling peer faults, reference state machine oracle",
       "DESIGN.md section 6 C08")
+check("C13", "exploration",
+      "WebSocketApp.run_forever on the simulated main thread against scripted peers (plain and real TLS over the simulated "
+      "wire): bursts of frames in one segment followed by silence, fragmented messages, every subset of callbacks set "
+      "(enumerated), callbacks raising; the callback trace must equal the receiver model's and every callback must fire at "
+      "the virtual instant the last byte of its frame was delivered (zero-cost callbacks make 'as soon as' an equality of "
+      "timestamps).", TRUST, "deterministic simulation: virtual-time event histories (bursts + silence) over plain and TLS transports, model + timestamp oracle",
+      "DESIGN.md section 6 C13")
+check("C14", "exploration",
+      "Twelve ending modes x callbacks x optional ping thread x second run, under seeded schedules, plus a sweep that calls "
+      "close() from a second thread pre-empting the loop thread at every traced line (every 3rd in quick) of four reference "
+      "runs. Per-run oracle: bounded termination in virtual time, on_close exactly once and last with the server's close "
+      "code/reason or (None, None), return value consistent with on_error and the ending mode, all sockets closed and no "
+      "library thread alive, second run judged on its own. Four known findings (asynchronous close races) are listed in "
+      "known_findings.json and printed as KNOWN-FINDING.", TRUST,
+      "deterministic simulation: seeded scheduler + depth-1 pre-emption sweep (close() at every line), fault endings in virtual time, per-run invariant oracle",
+      "DESIGN.md section 6 C14")
